@@ -297,7 +297,7 @@ NeedsParen(t, i, pc) == /\ Real(t.c[i])
                            \/ (ControlSlot(t, i) /\ ExposedCL(pc))
                            \/ (LhsSlot(t, i) /\ Flat(pc)[1].s = "{")
                            \/ (ValueSlot(t, i) /\ Flat(pc)[1].s = "{" /\ pc.k \notin {"CompositeLit", "ComprehensionExpr", "KeyValueExpr"})
-RECURSIVE Par(_)
+RECURSIVE Par(_), DomainOK(_)
 \* Par(t): t with parentheses inserted where needed.  A lambda result that would START with "(" is read
 \* by parseLambdaExpr as a parenthesised result list, so the whole result gets the lambda's own parentheses.
 Par(t) == IF t.c = <<>> THEN t
@@ -305,6 +305,15 @@ Par(t) == IF t.c = <<>> THEN t
                           LET pc == Par(t.c[i]) IN IF NeedsParen(t, i, pc) THEN N("ParenExpr", "", <<pc>>) ELSE pc]]
                IN IF t.k = "LambdaExpr" /\ t.a \in {"", "l"} /\ Len(u.c[2].c) = 1 /\ Flat(u.c[2])[1].s \in {"(", "{"}
                   THEN [u EXCEPT !.a = IF t.a = "l" THEN "lr" ELSE "r"] ELSE u
+\* DOMAIN of C22 ("well-formed tree built programmatically, without explicit parentheses"): a composite
+\* literal standing directly in a control clause (condition of a for-phrase / if / for / switch) is NOT
+\* well-formed without its ParenExpr -- as in go/ast, whose printer keeps exactly these parentheses
+\* (stripParens) and never invents them.  Such trees are still enumerated (C17/C18 use their parenthesised
+\* form) but C22 skips them.
+DomainOK(t) == /\ \A i \in 1..Len(t.c) :
+                    ~(Real(t.c[i]) /\ ControlSlot(t, i)
+                      /\ (ExposedCL(Par(t.c[i])) \/ Flat(Par(t.c[i]))[1].s = "{"))
+               /\ \A i \in 1..Len(t.c) : DomainOK(t.c[i])
 RECURSIVE Strip(_)
 \* remove ParenExpr; `x => (e)` (RhsHasParen with one result) is the lambda's own way of writing a ParenExpr
 Strip(t) == IF t.k = "ParenExpr" THEN Strip(t.c[1])
@@ -895,13 +904,14 @@ VARIABLES foc,     \* the focus the tree comes from (decides the parse context)
           pc
 vars == <<foc, tree, pr, ps, pc>>
 Ctx == FCtx(foc)
-NoPr == [pt |-> Nil, toks |-> <<>>, render |-> <<>>, spans |-> <<>>, walk |-> <<>>]
+NoPr == [pt |-> Nil, toks |-> <<>>, render |-> <<>>, spans |-> <<>>, walk |-> <<>>, nodom |-> FALSE]
 NoPs == [canon |-> Nil, tight |-> Nil, wide |-> Nil, bare |-> Nil]
 Init == /\ foc \in Foci /\ tree \in Universe(foc) /\ pr = NoPr /\ ps = NoPs /\ pc = "start"
 \* printer/nodes.go expr1/binaryExpr as it should behave: parentheses exactly where NeedsParen
 Render == /\ pc = "start"
           /\ LET pt == IF foc # "samples" THEN Par(tree) ELSE tree IN
-             pr' = [pt |-> pt, toks |-> Toks(pt, "canon"), render |-> RenderToks(pt), spans |-> Spans(pt), walk |-> WalkEvents(pt)]
+             pr' = [pt |-> pt, toks |-> Toks(pt, "canon"), render |-> RenderToks(pt), spans |-> Spans(pt), walk |-> WalkEvents(pt),
+                    nodom |-> ~DomainOK(tree)]
           /\ pc' = IF foc # "samples" THEN "printed" ELSE "done"
           /\ UNCHANGED <<foc, tree, ps>>
 \* parser.go ParseExpr / parseStmt on the canonical, the tightest and the widest layout, and on the
@@ -931,6 +941,6 @@ SpansOK    == DoneGen =>
                  /\ \A i \in 1..Len(pr.spans) : pr.spans[i].f <= pr.spans[i].l \/ pr.spans[i].k \in {"EmptyStmt", "FieldList", "File"}
 Terminates == <>(pc = "done")
 Export == pc = "done" =>
-   Emit([ctx |-> Ctx, focus |-> foc, t |-> tree, pt |-> pr.pt, toks |-> pr.render, spans |-> pr.spans, walk |-> pr.walk,
+   Emit([ctx |-> Ctx, focus |-> foc, t |-> tree, pt |-> pr.pt, toks |-> pr.render, spans |-> pr.spans, walk |-> pr.walk, nodom |-> pr.nodom,
          ok |-> IF foc # "samples" THEN ps.canon = pr.pt ELSE Parseable(tree)])
 =============================================================================
